@@ -115,6 +115,17 @@ def object_cases(rng, n_random, exhaustive_small=True):
                 yield {"kind": "sweep", "cls": "loc", "spec": {"blocks": [list(b) for b in lay], "strand": strand, "compound": len(lay) == 1 and lay[0][1] - lay[0][0] == 6},
                        "parent": {"mode": pm, "genome": g40, "seqname": "chr1", "window": [0, 40] if pm != "chunk" else [10, 50]},
                        "aseed": rng.randrange(1 << 30), "tag": "fixed"}
+    # scale: 36..70 blocks, some zero-length blocks sitting inside introns (strategies that switch by block count)
+    for nb, stride in ((36, 5), (70, 4)):
+        lay = []
+        for k in range(nb):
+            lay.append((stride * k, stride * k + 2))
+            if k % 9 == 4:
+                lay.append((stride * k + 3, stride * k + 3))
+        for strand in G.STRANDS:
+            for pm in ("none", "id"):
+                yield {"kind": "sweep", "cls": "loc", "spec": {"blocks": [list(b) for b in lay], "strand": strand, "compound": False},
+                       "parent": {"mode": pm, "genome": g40, "seqname": "chr1", "window": [0, 40]}, "aseed": rng.randrange(1 << 30), "tag": "fixed-many-blocks"}
     yield {"kind": "sweep", "cls": "emptyloc", "spec": {}, "parent": None, "aseed": rng.randrange(1 << 30), "tag": "fixed"}
     # ---- sequences / parents ------------------------------------------------------------------------------------
     for shape in ("plain", "empty", "with-id-type", "on-parent-plus", "on-parent-minus", "on-compound-parent", "chunk", "protein", "lower"):
